@@ -188,7 +188,7 @@ def Tree.addNode (t : Tree) (next : NodeId) (parent : NodeId) (src : T) (srcInTh
 /-- `add_child(tree)`: the source's top nodes one by one (order preserved for every `before`);
 a collision with an existing child is refused before anything is added. -/
 def Tree.addTree (t : Tree) (next : NodeId) (parent : NodeId) (srcTops : List T) (before : Before)
-    (deep : Option Bool) : Tree × NodeId × Option Err :=
+    (deep : Option Bool) (keepKind : Bool := true) : Tree × NodeId × Option Err :=
   let deep := deep.getD true
   match findT parent t.root with
   | none => (t, next, some .other)
@@ -201,7 +201,26 @@ def Tree.addTree (t : Tree) (next : NodeId) (parent : NodeId) (srcTops : List T)
       order.foldl (fun (acc : Tree × NodeId × Option Err) s =>
         match acc with
         | (t, n, some e) => (t, n, some e)
-        | (t, n, none) => Tree.addNode t n parent s false none before (some deep) none s.kind) (t, next, none)
+        | (t, n, none) => Tree.addNode t n parent s false none before (some deep) none (if keepKind then s.kind else none)) (t, next, none)
+
+/-- `Node.copy_to(target, add_self=False, deep=)` / `Tree.copy_to(target, deep=)`: copies of the
+source's children are appended to the target; a node without children → ValueError; a collision
+with an existing child of the target is refused before anything is added. -/
+def Tree.copyKids (t : Tree) (next : NodeId) (parent : NodeId) (srcKids : List T) (deep : Bool) :
+    Tree × NodeId × Option Err :=
+  if srcKids.isEmpty then (t, next, some .value)
+  else Tree.addTree t next parent srcKids .none (some deep) false   -- `copy_to` passes no `kind=` (default kind in typed trees)
+
+/-- `Tree.copy()`: a new tree of the same class (without the id callback; the ids are passed
+explicitly) receiving copies of all nodes. -/
+def Tree.copyAll (src : Tree) (next : NodeId) : Tree × NodeId × Option Err :=
+  Tree.addFromL { typed := src.typed } next 0 src.root.kids
+
+/-- `Node.copy(add_self=)`: a new tree of the same class with a copy of the branch. -/
+def Tree.copyBranch (src : Tree) (next : NodeId) (n : T) (addSelf : Bool) : Tree × NodeId × Option Err :=
+  let new : Tree := { typed := src.typed }
+  if addSelf then Tree.addNode new next 0 n false none .none (some true) none none
+  else Tree.addFromL new next 0 n.kids
 
 /-! ### remove -/
 
